@@ -12,6 +12,7 @@ import (
 	"errors"
 	"fmt"
 	"regexp"
+	"sort"
 	"strconv"
 	"strings"
 	"time"
@@ -546,6 +547,7 @@ func runParse(c *ctx, prop string) error {
 	if c.only != nil {
 		n = 1
 	}
+	probes := c.known.probeDocuments()
 	for i := 0; i < n; i++ {
 		o := &gen.Opts{R: rng, Str: parseStr, Key: gen.DefaultKey, UntypedExotic: true, TypeErrors: typeErrors, MaxGroupDepth: 4, MaxMapSize: 16, Hist: c.res.Hist,
 			GroupBias: 8}
@@ -553,6 +555,8 @@ func runParse(c *ctx, prop string) error {
 		style := "given"
 		if c.only != nil {
 			src = c.only
+		} else if i < len(probes) {
+			src, style = probes[i], "known-finding-probe"
 		} else {
 			doc := o.Pipeline()
 			src, style = renderStyles(rng, doc)
@@ -657,6 +661,14 @@ func runParse(c *ctx, prop string) error {
 		jtree, jterr := decodeTree(jb)
 		if jterr == nil {
 			shards[i%nShard].Add(vl.Escape("normalform "+vl.Enc(treeV)), vl.Escape("ok "+vl.Enc(dump.Any(jtree))))
+		}
+		// the YAML leg's value tree (every mapping level sorted on both sides: key order is C08's subject);
+		// documents the YAML text codec cannot carry (F10 look-alikes, the property's own exclusion) are left out
+		if prop == "C09" && !yamlLegExcluded(dump.Pipeline(p)) && !hasMergeLookalike(treeV) {
+			if ytree, yterr := decodeTree(yb); yterr == nil {
+				shards[i%nShard].Add(vl.Escape("normalformy "+vl.Enc(treeV)), vl.Escape("ok "+vl.Enc(sortAllMaps(dump.Any(ytree)))))
+				c.res.Hist("c09.yaml-leg-value-tree-compared")
+			}
 		}
 		// ---------- C03 ----------
 		if jterr == nil && prop == "C03" {
@@ -1087,6 +1099,26 @@ func hasEmptyishSkip(v any) bool {
 		}
 	}
 	return false
+}
+
+// sortAllMaps: every ordered mapping of the tree with its entries sorted by key.
+func sortAllMaps(v any) any {
+	switch t := v.(type) {
+	case vl.OMap:
+		out := make(vl.OMap, len(t))
+		for i, kv := range t {
+			out[i] = vl.KV{K: kv.K, V: sortAllMaps(kv.V)}
+		}
+		sort.SliceStable(out, func(i, j int) bool { return out[i].K < out[j].K })
+		return out
+	case []any:
+		out := make([]any, len(t))
+		for i, e := range t {
+			out[i] = sortAllMaps(e)
+		}
+		return out
+	}
+	return v
 }
 
 // nodeScalarLeaves: the document's scalar values (not keys) in document order, each decoded by yaml.v3's
